@@ -693,7 +693,9 @@ func (c *EvalCtx) evalCall(e *ECall) TV {
 		t2 := fmt.Sprintf("(forall ((%s Int)) (! (=> (and (<= 0 %s) (< %s (s.len %s))) (and (<= 0 (%s %s)) (< (%s %s) (s.len %s)) (= (select %s (at (s.off %s) (%s %s))) (select %s (at (s.off %s) %s))))) :pattern ((select %s (at (s.off %s) %s)))))",
 			qi, qi, qi, x.Term, inv, qi, inv, qi, x.Term, newArr, x.Term, inv, qi, oldArr, x.Term, qi, oldArr, x.Term, qi)
 		t3 := fmt.Sprintf("(forall ((%s Int)) (! (=> (not (= %s (s.arr %s))) (= (select %s %s) (select %s %s))) :pattern ((select %s %s))))", qi, qi, x.Term, nw, qi, od, qi, nw, qi)
-		return TV{Term: "(and " + t1 + " " + t2 + " " + t3 + ")", Sort: "Bool", T: boolT}
+		t4 := fmt.Sprintf("(forall ((%s Int)) (! (=> (and (<= 0 %s) (< %s (s.len %s))) (and (= (%s (%s %s)) %s) (= (%s (%s %s)) %s))) :pattern ((%s %s)) :pattern ((%s %s))))",
+			qi, qi, qi, x.Term, inv, perm, qi, qi, perm, inv, qi, qi, perm, qi, inv, qi)
+		return TV{Term: "(and " + t1 + " " + t2 + " " + t3 + " " + t4 + ")", Sort: "Bool", T: boolT}
 	case "allocated":
 		argn(1)
 		x := c.eval(e.Args[0])
